@@ -167,7 +167,7 @@ func (x *Exec) exec(st *State, fr *Frame, in ssa.Instruction) []*State {
 		x.checkEscape(st, fr, in, x.get(fr, v.Value))
 		x.mapStore(st, mt, m, x.get(fr, v.Key), x.get(fr, v.Value))
 	case *ssa.MakeInterface:
-		if _, isPtr := v.X.Type().Underlying().(*types.Pointer); isPtr && inModuleType(v.Type()) {
+		if _, isPtr := v.X.Type().Underlying().(*types.Pointer); isPtr && x.nnBoxed[typeKey(v.Type())] {
 			x.safety(st, fr, in, "nil-pointer-boxed", Ne(x.ptrRef(x.get(fr, v.X)), IntC(0)))
 		}
 		fr.regs[v] = x.makeIface(st, x.get(fr, v.X), v.X.Type())
